@@ -26,15 +26,30 @@ def main():
         if getattr(mod, "NOT_APPLICABLE", None):
             na.append({"property_id": pid, "reason": mod.NOT_APPLICABLE})
             continue
-        full = [t["clause"] for t in mod.THEOREMS if t.get("strength", "full") == "full"]
-        part = [t["clause"] for t in mod.THEOREMS if t.get("strength") == "partial"]
+        def _cat(t):
+            st = t.get("strength", "full")
+            if st == "full":
+                return "full"
+            if st.startswith("partial") or st.startswith("conditional") or "monitored-hypothesis" in st:
+                return "partial"
+            return st
+        full = [t["clause"] for t in mod.THEOREMS if _cat(t) == "full"]
+        part = [t["clause"] for t in mod.THEOREMS if _cat(t) == "partial"]
+        byc = [t["clause"] for t in mod.THEOREMS if _cat(t) == "by-construction"]
+        mon = [t["clause"] for t in mod.THEOREMS if _cat(t) == "monitored"]
+        nties = sum(1 for t in mod.THEOREMS if _cat(t) == "tie")
         text = getattr(mod, "LEVEL_TEXT", None) or (
             "Lean 4 theorems about an executable model of the anchored code, for all inputs the property "
             "quantifies over (exact real arithmetic); the model is tied to /repo on every run by a differential "
             "correspondence check, and the property's clauses are additionally evaluated on the real code's "
             "outputs to produce a concrete failing input when the tie breaks. Proved in full: "
             + "; ".join(full) + ("." if full else "")
-            + (" Partial: " + "; ".join(part) + "." if part else ""))
+            + (" Partial or conditional on a stated/monitored hypothesis: " + "; ".join(part) + "." if part else "")
+            + (" True by construction of the model (the fact about the code rests on the correspondence): "
+               + "; ".join(byc) + "." if byc else "")
+            + (" NOT proved, decided by evaluation on real runs only: " + "; ".join(mon) + "." if mon else "")
+            + (f" {nties} regeneration-tie theorems equate formulas re-extracted from /repo on every run with the "
+               "hand model." if nties else ""))
         checks.append({
             "property_id": pid,
             "quick_cmd": f"./check {pid} quick",
